@@ -17,7 +17,7 @@ def run(prop, tier, seed, ctx):
                        "exported by TLC, replayed with both concretisation variants; non-trivial = file has >= 1 marker; "
                        "distinct = distinct (file, mode, behaviour)")
     cases = []
-    for cfg in (["MC_Sections_q.cfg", "MC_Sections_resep_q.cfg"] if tier == "quick" else ["MC_Sections_t.cfg", "MC_Sections_f.cfg", "MC_Sections_resep_q.cfg", "MC_Sections_resep_t.cfg"]):
+    for cfg in (["MC_Sections_q.cfg", "MC_Sections_resep_q.cfg", "MC_Sections_many_q.cfg"] if tier == "quick" else ["MC_Sections_t.cfg", "MC_Sections_f.cfg", "MC_Sections_resep_q.cfg", "MC_Sections_resep_t.cfg", "MC_Sections_many_q.cfg"]):
         res = tlc.run("Sections", cfg, workers=8, timeout=900)
         tlc.require_ok(res, cfg)
         ctx.add_tlc(res, "exhaustive " + cfg)
